@@ -86,3 +86,13 @@ package wkt
 //@   requires 0 <= i && i <= 1099511627777
 //@ func unmarshalMultiPolygon$2$1(i)
 //@   requires 0 <= i && i <= 1099511627777
+
+// ---------------------------------------------------------------- encoder side (C20: total over the kinds)
+//@ extern bytes.NewBuffer(buf)
+//@   modifies nothing
+//@   ensures result != nil
+
+//@ func wkt(buf, geom)
+//@   requires buf != nil
+//@ func writeLineString(buf, ls)
+//@   requires buf != nil
